@@ -224,6 +224,7 @@ func (d *Driver) Run() int {
 		d.extraBoundedSCC()
 	}
 	// generate VCs
+	activeDriver = d
 	for _, j := range jobs {
 		fx, err := VerifyFunc(j.pkg, j.cs, j.key)
 		if err != nil {
@@ -520,6 +521,7 @@ func (d *Driver) repoJobs(loader *Loader, tg string) ([]*job, error) {
 	}
 	pkg.Flags = map[string]bool{"rt": false, "opt": false, "bl": false, "lr": false, "state": false, "memo": false, "dbg": false, "gstate": false}
 	cs := NewContracts()
+	cs.OwnPkg = tg
 	for _, f := range d.contractFiles(tg) {
 		if err := cs.LoadFile(f, pkg.Flags); err != nil {
 			return nil, err
